@@ -99,7 +99,31 @@ def lines_of_const_str_and_path(model):
             actual = list(lines)
         if _report('_StringSourceContentsOfConstStrAndExistingPath.as_lines', text, split_nl(text), actual):
             return 1
+        # re-readability: every pair of uses, in both orders, on a fresh object: the second use sees the text too
+        for first in sorted(_USES):
+            for second in sorted(_USES):
+                c = frozen._StringSourceContentsOfConstStrAndExistingPath(text, p, sp)
+                _USES[first](c)
+                if _report('_StringSourceContentsOfConstStrAndExistingPath: %s after %s' % (second, first),
+                           text, text, _USES[second](c)):
+                    return 1
     return 0
+
+
+def _use_as_lines(c):
+    with c.as_lines as lines:
+        return ''.join(lines)
+
+
+def _use_write_to(c):
+    out = io.StringIO()
+    c.write_to(out)
+    return out.getvalue()
+
+
+# the four ways to consume a text, each giving the text it saw
+_USES = {'as_str': lambda c: c.as_str, 'as_lines': _use_as_lines, 'as_file': lambda c: file_text(c.as_file),
+         'write_to': _use_write_to}
 
 
 def as_file_of_contents_of_str(model):
